@@ -85,3 +85,19 @@ Proof.
   - apply eval_loop_nj; auto. intros c neg E. inversion E; subst. assumption.
   - apply eval_loop_nj; auto. intros c neg E. discriminate.
 Qed.
+
+(* a bare break / continue never completes normally *)
+Definition not_norm (o : outcome) : Prop := match o with ONorm _ _ => False | _ => True end.
+
+Lemma jump_not_norm : forall n e s, is_jump e = true -> not_norm (eval n s e).
+Proof.
+  induction n; intros e s J; [exact I|].
+  destruct e; cbn [is_jump] in J; try discriminate J; cbn [eval].
+  - apply IHn. assumption.
+  - revert s. induction es as [|e0 rest IHr]; intros s; [discriminate|].
+    cbn [eval_block]. destruct rest as [|e1 rest].
+    + apply IHn. assumption.
+    + destruct (eval n s e0); try exact I. apply IHr. assumption.
+  - destruct v as [a|]; [|exact I]. destruct (eval n s a); exact I.
+  - exact I.
+Qed.
